@@ -16,6 +16,8 @@ def sh(cmd, cwd=None, timeout=1800):
 
 def seed_name(d):
     parts = os.path.normpath(d).split(os.sep)
+    if parts[-2].startswith("seed2_"):          # second wave: m1/m2 are kept as m3/m4
+        return parts[-2].replace("seed2_", "") + "_m" + str(int(parts[-1][1:]) + 2)
     return parts[-2].replace("seed_", "") + "_" + parts[-1]
 
 
